@@ -213,7 +213,7 @@ class Program:
                 cands = self.by_key.get(key, [])
             if not cands:
                 cands = [f for f in self.by_key.get(segs[-1], []) if '<impl at' not in f.name and
-                         (f.name == c or f.name.endswith('::' + c) or len(segs) == 1)]
+                         (f.name == c or f.name.endswith('::' + c) or c.endswith('::' + f.name) or len(segs) == 1)]
         return cands
 
 
